@@ -22,7 +22,7 @@ class C07(conncheck.ConnCheck):
     kinds = ('grammar', 'event-after-terminal', 'exception-escaped', 'no-termination', 'yield-after-stop',
              'no-terminal-event', 'terminal-not-last', 'two-terminal-events')
     expect_sites = ('srv:hs-404', 'srv:hs-oversize', 'srv:close-1000', 'srv:silence', 'srv:err', 'ready', 'closing', 'closed',
-                    'connect-fault')
+                    'connect-fault', 'silent-tail')
 
     def rule(self, tier):
         return ('for each handshake variant x application-action type: all server step sequences over %d steps '
@@ -63,6 +63,12 @@ class C07(conncheck.ConnCheck):
             out.append({'name': 't/wide', 'server': SERVER_FULL + ['text-euro', 'empty-text', 'ping-empty', 'ping-125', 'ping-ping', 'ping-text-close',
                                                                   'close-3000', 'ping-then-bad'],
                         'handshake': ['hs-ok', 'hs-deflate'], 'app': ['close'], 'depth': None, 'max_dev': 1})
+        # time-outs must end the iteration by themselves: past the depth bound the server stays silent (not EOF)
+        out.append({'name': 'close-timeout', 'server': ['eof', 'text', 'ping', 'close-1000', 'silence'], 'handshake': ['hs-ok'], 'app': ['close'],
+                    'depth': 3, 'max_dev': 1, 'connect': {'close_timeout': 10}, 'timers': 'absolute', 'drop': (), 'silent_tail': True})
+        out.append({'name': 'ping-timeout', 'server': ['eof', 'text', 'pong', 'silence'], 'handshake': ['hs-ok'], 'app': ['send_text'],
+                    'depth': 3, 'max_dev': 1, 'connect': {'ping_timeout': 7, 'ping_rate': 0}, 'timers': 'absolute', 'drop': (),
+                    'silent_tail': 'always'})
         for f in ('resolve', 'socket', 'connect-all', 'connect-first', 'request-write', 'request-write-arbitrary'):
             out.append({'name': 'connect-fault/' + f, 'server': ['eof', 'text', 'close-1000'], 'handshake': ['hs-ok'],
                         'app': ['close', 'send_text'], 'depth': 2, 'max_dev': 1, 'connect_fault': f})
